@@ -39,6 +39,7 @@ MIN_REACH = {
     "subsets_with_failed_write_leftovers": {"quick": 80, "thorough": 1200},
     "locations_used_before_by_another_crop": {"quick": 10, "thorough": 100},
     "partial_reaps_racing_with_the_last_grower": {"quick": 10, "thorough": 100},
+    "cases_reaped_through_a_handle_older_than_the_sow": {"quick": 8, "thorough": 80},
 }
 TIME_BUDGET = {"quick": 400, "thorough": 3400}
 CASE_TIMEOUT = {"quick": 300, "thorough": 900}
@@ -168,6 +169,13 @@ def run_case(ctx, case):
             ctx.violation(case, "prelude crop at the same location raised %r" % (e,), dict(sig, step="prelude", **exc_sig(e)))
             ctx.rmtree(tmp)
             return
+    early = None
+    if form not in ("runner_ds", "harvester_ds") and case["idx"] % 4 == 2:
+        # a handle on the crop that was created (by name) BEFORE anything was sown - a monitoring notebook opened first;
+        # every partial reap of this case goes through it
+        with quiet():
+            early = xyzpy.Crop(name=name, parent_dir=tmp)
+        ctx.count("cases_reaped_through_a_handle_older_than_the_sow")
     try:
         with quiet():
             if form in ("runner_ds", "harvester_ds"):
@@ -286,6 +294,8 @@ def run_case(ctx, case):
         try:
             with quiet():
                 c = xyzpy.Crop(name=name, parent_dir=tmp) if form not in ("runner_ds", "harvester_ds") else crop
+                if early is not None:
+                    c = early
                 c._all_nan_result = None
                 racing = form == "harvester_ds" and (case["idx"] + len(S)) % 2 == 0
                 if racing:
